@@ -24,9 +24,10 @@ run_one() { # kind prop patch
 export -f run_one
 [ -x "$DIR/bin/govc" ] || (cd "$DIR" && ./build.sh >/dev/null 2>&1)
 LIST=$(mktemp)
-for d in "$DIR"/selftest/mutants/*/; do p=$(basename "$d"); [ -n "$ONLY" ] && [ "$ONLY" != "$p" ] && continue
+# SELFTEST_KIND=refactors / mutants restricts the run to one half of the corpus
+[ "$SELFTEST_KIND" = refactors ] || for d in "$DIR"/selftest/mutants/*/; do p=$(basename "$d"); [ -n "$ONLY" ] && [ "$ONLY" != "$p" ] && continue
   for f in "$d"*.patch; do [ -f "$f" ] && echo "mutant $p $f" >> "$LIST"; done; done
-for d in "$DIR"/selftest/refactors/*/; do p=$(basename "$d"); [ -n "$ONLY" ] && [ "$ONLY" != "$p" ] && continue
+[ "$SELFTEST_KIND" = mutants ] || for d in "$DIR"/selftest/refactors/*/; do p=$(basename "$d"); [ -n "$ONLY" ] && [ "$ONLY" != "$p" ] && continue
   for f in "$d"*.patch; do [ -f "$f" ] && echo "refactor $p $f" >> "$LIST"; done; done
 OUT=$(mktemp)
 xargs -P "${SELFTEST_JOBS:-4}" -L 1 bash -c 'run_one "$0" "$1" "$2"' < "$LIST" | tee "$OUT"
